@@ -443,3 +443,59 @@ def failed_save_rule(ctx, rid):
         else:
             rr.bad(ctx.finding(rid, sf, stores[0].ast, "save_full_df saves `%s` but keeps `%s` in memory" % (saved, stored), construct="save-store-differ"), "memory = disk")
     return rr
+
+
+def unsynced_rule(ctx, rid, cls="Harvester"):
+    """C05.R6: data that only exists in memory (added with sync=False) is
+    never replaced by a reload from disk.  Typestate over the accumulated
+    attribute: {clean, dirty}.  add_* with sync falsy stores the merged data
+    in memory without saving (-> dirty); add_* with sync truthy first calls
+    the loader, whose store `self._full = load(...)` replaces the attribute.
+    The reload is harmless only if what was in memory is carried over: a
+    value captured from the attribute before the reload and combined after
+    it, or a loader that merges with the attribute instead of replacing it."""
+    what = {"Harvester": ("add_ds", "load_full_ds", "save_full_ds", "_full_ds", MAN + ".load_ds"),
+            "Sampler": ("add_df", "load_full_df", "save_full_df", "_full_df", MAN + ".load_df")}[cls]
+    mname, lname, sname, attr, loader = what
+    rr = ctx.rule(rid, "%s.%s: data held only in memory (added with sync=False) is not replaced by the reload of a later synced call" % (cls, mname), floor=2)
+    prog = ctx.prog
+    f = prog.need_func("%s.%s.%s" % (FARM, cls, mname))
+    lf = prog.need_func("%s.%s.%s" % (FARM, cls, lname))
+    g = build_cfg(f.node)
+    ctx.touch(f, g), ctx.touch(lf)
+    # (1) can memory become dirty?
+    fl0 = Flow(g, {"sync": FALSE, "self.data_name": NOTNONE, "chunks": NONE, "self.chunks": NONE}).run()
+    stores0 = [n for n in g.nodes if n.id in fl0.visited and n.kind == "stmt" and isinstance(n.ast, ast.Assign) and any(path_key(t) == "self." + attr for t in n.ast.targets)]
+    saves0 = [n for n, c, nm in all_calls(ctx, f, g) if nm == "%s.%s.%s" % (FARM, cls, sname) and n.id in fl0.visited]
+    if not stores0 or saves0:
+        rr.ok("%s(sync=False) leaves no unsaved data in memory (stores %d, saves %d)" % (mname, len(stores0), len(saves0)))
+        rr.ok("nothing to carry over")
+        return rr
+    rr.ok("%s(sync=False) stores the merged data in memory only: `%s` (memory may be ahead of the file)" % (mname, norm(stores0[0].ast)[:60]))
+    # (2) the synced call reloads
+    fl1 = Flow(g, {"sync": TRUE, "self.data_name": NOTNONE, "self." + attr: NOTNONE, "chunks": NONE, "self.chunks": NONE}).run()
+    loads = [(n, c) for n, c, nm in all_calls(ctx, f, g) if nm == "%s.%s.%s" % (FARM, cls, lname) and n.id in fl1.visited]
+    if not loads:
+        rr.ok("%s(sync=True) does not reload while data is held in memory" % mname)
+        return rr
+    L = loads[0][0]
+    # loader: does it replace or merge?
+    lstores = [s for s in ast.walk(lf.node) if isinstance(s, ast.Assign) and any(path_key(t) == "self." + attr for t in s.targets)]
+    need(lstores, "anchor lost: %s does not store %s" % (lname, attr))
+    merges_in_loader = all(("self." + attr) in norm(s.value) for s in lstores)
+    # carried over in the adder: captured before, combined after
+    carried = False
+    for n in g.nodes:
+        if n.kind == "stmt" and isinstance(n.ast, ast.Assign) and len(n.ast.targets) == 1 and isinstance(n.ast.targets[0], ast.Name) and "self._" in norm(n.ast.value) \
+                and n.id in fl1.visited and g.completes_before(n.id, L.id):
+            cap = n.ast.targets[0].id
+            for m2 in g.nodes:
+                if m2.id in fl1.visited and m2.id != n.id and m2.kind == "stmt" and m2.id in g.reachable(start=L.id) and m2.id != L.id and cap in names_in(m2.ast) \
+                        and any(isinstance(c, ast.Call) and isinstance(c.func, ast.Attribute) and c.func.attr in ("combine_first", "merge", "concat", "update", "append") for c in ast.walk(m2.ast)):
+                    carried = True
+    if merges_in_loader or carried:
+        rr.ok("the reload carries the in-memory data over (%s)" % ("the loader merges with the attribute" if merges_in_loader else "captured before the reload and combined after it"))
+    else:
+        rr.bad(ctx.finding(rid, f, loads[0][1], "%s(sync=True) calls %s, which replaces `self.%s` by the file's content (`%s`), while a previous %s(sync=False) may have left data in memory that was never saved: "
+                           "those points are dropped from memory and never reach the file" % (mname, lname, attr, norm(lstores[0])[:70], mname), construct="reload-drops-unsynced"), "reload keeps unsynced data")
+    return rr
